@@ -85,6 +85,9 @@ fn exec_here(case: &EnvCase) -> Observed {
     }
 
     let mut ctx = CelContext::new();
+    for p in case.pre.iter().filter(|p| !p.late) {
+        run_pre(p, &mut ctx, None);
+    }
     for (name, e) in case.programs.iter() {
         if let Err(err) = ctx.add_program_str(name, &e.render(case.flat)) {
             return Observed {
@@ -112,6 +115,17 @@ fn exec_here(case: &EnvCase) -> Observed {
         bind.bind_func(n, f.as_ref());
     }
 
+    let mut pre_events = 0usize;
+    for p in case.pre.iter().filter(|p| p.late) {
+        run_pre(p, &mut ctx, Some(&bind));
+        // a pre-op on the case's own context may legitimately call into the environment
+        // (none of the texts does); whatever it logged is not part of the exec under test
+        pre_events = log.borrow().len();
+    }
+    if pre_events > 0 {
+        log.borrow_mut().clear();
+        counts.borrow_mut().clear();
+    }
     let r = std::panic::catch_unwind(std::panic::AssertUnwindSafe(|| ctx.exec("main", &bind)));
     let outcome = match r {
         Ok(r) => Outcome::from_result(&r),
@@ -140,6 +154,39 @@ fn exec_here(case: &EnvCase) -> Observed {
     }
     let l = log.borrow().clone();
     Observed { outcome, log: l, bindings_changed: changed }
+}
+
+/// one injected history step; its outcome is ignored (a panic is C01's business)
+fn run_pre(p: &PreOp, ctx: &mut CelContext, bind: Option<&BindContext>) {
+    let pick = |texts: &[&'static str], v: u8| texts[v as usize % texts.len()];
+    let empty = BindContext::new();
+    let mut scratch = CelContext::new();
+    let (c, b): (&mut CelContext, &BindContext) = if p.own { (ctx, bind.unwrap_or(&empty)) } else { (&mut scratch, &empty) };
+    let _ = std::panic::catch_unwind(std::panic::AssertUnwindSafe(|| match p.kind {
+        PreKind::BadCompile(v) => {
+            let _ = c.add_program_str("zz_bad", pick(&BAD_TEXTS, v));
+        }
+        PreKind::BadCompileFree(v) => {
+            let _ = rscel::Program::from_source(pick(&BAD_TEXTS, v));
+        }
+        PreKind::FailExec(v) => {
+            if c.add_program_str("zz_pre", pick(&FAIL_TEXTS, v)).is_ok() {
+                let _ = c.exec("zz_pre", b);
+            }
+        }
+        PreKind::DepthExec(v) => {
+            if c.add_program_str("zz_pre", pick(&DEPTH_TEXTS, v)).is_ok() {
+                for _ in 0..(1 + v as usize % 3) {
+                    let _ = c.exec("zz_pre", b);
+                }
+            }
+        }
+        PreKind::OkExec(v) => {
+            if c.add_program_str("zz_pre", pick(&OK_TEXTS, v)).is_ok() {
+                let _ = c.exec("zz_pre", b);
+            }
+        }
+    }));
 }
 
 pub fn panic_msg(p: &Box<dyn std::any::Any + Send>) -> String {
@@ -225,6 +272,7 @@ fn learn_map_order(m: &BTreeMap<String, V>, keys: &[[u8; 16]]) -> Result<Vec<Str
                 threads: true,
                 named: BTreeMap::new(),
                 clock_ns: None,
+                pre: vec![],
             };
             if bound {
                 case.bindings.insert("m__".into(), V::Map(m.clone()));
